@@ -38,7 +38,7 @@ Print Assumptions C17_owner_is_not_locked_out.
 Theorem C17_exclusive_consumer_excludes :
   forall cfg fx s c h q tag noack excl nowait ch qu,
     get_chan s c h = Some ch -> queue_found s q = Some qu -> (fx_excl_owner fx && locked qu c) = false ->
-    find_consumer ch tag = None ->
+    find_consumer ch (eff_tag s tag) = None ->
     q_consumers qu <> [] -> (q_cexcl qu = true \/ excl = true) ->
     handle_method cfg fx s c h (MConsume q tag noack excl nowait) =
     (set_queue s q (qu <| q_wasconsumed := true |>), [], Some (ChanErr AccessRefused 60 20)).
